@@ -18,6 +18,7 @@ import Driver.Verify
 import Driver.Md4
 import Driver.TotpSerial
 import Driver.Shapes
+import Driver.SpecFmt
 /-
 Line protocol driver: `<suite> <op> <args…>` per input line, one result line out.
 Compiled (`lean_exe modeldrv`); nothing imported here touches Mathlib.
@@ -44,6 +45,7 @@ def dispatch (line : String) : String :=
   | "md4" :: rest => Driver.Md4.handle rest
   | "tser" :: rest => Driver.TotpSerial.handle rest
   | "shape" :: rest => Driver.Shapes.handle rest
+  | "sfmt" :: rest => Driver.SpecFmt.handle rest
   | _ => Driver.bad
 
 partial def loop (h : IO.FS.Stream) (out : IO.FS.Stream) : IO Unit := do
